@@ -399,7 +399,9 @@ func (m *ModeManager) tickDR() {
 		progress := m.estimateProgress()
 		drRecoverProgressGauge.Set(float64(progress))
 
-		if progress == 1.0 {
+		// The switch is decided on the scan cursor, not on the float32
+		// estimate, which rounds up to 1.0 for very large region counts.
+		if m.drRecoverFinished() {
 			m.drSwitchToSync()
 		} else {
 			m.updateRecoverProgress(progress)
@@ -468,8 +470,14 @@ func (m *ModeManager) updateProgress() {
 	}
 }
 
+// drRecoverFinished returns true when the recovery scan has passed every
+// region of the whole key space.
+func (m *ModeManager) drRecoverFinished() bool {
+	return len(m.drRecoverKey) == 0 && m.drRecoverCount > 0
+}
+
 func (m *ModeManager) estimateProgress() float32 {
-	if len(m.drRecoverKey) == 0 && m.drRecoverCount > 0 {
+	if m.drRecoverFinished() {
 		return 1.0
 	}
 
